@@ -60,6 +60,7 @@ type Prog struct {
 	usedAsValue map[*ssa.Function]bool
 	declined    map[*ssa.Function]bool // helpers some context could not inline
 	cflow       *chanFlow
+	constGlob   map[string]map[int64]int64 // package-level tables that are never written after initialisation
 	unresolved  []string               // anchors that failed to resolve
 	modCache    *modInfo
 	premiseBusy map[*ssa.Function]bool
@@ -259,6 +260,151 @@ func (p *Prog) Fn(name string) *ssa.Function {
 	}
 	p.unresolved = append(p.unresolved, "func "+name)
 	return nil
+}
+
+// constGlobals finds the package-level variables that hold a constant table:
+// initialised element-wise (or as a scalar) with constants by the package
+// initialiser and never stored to, sliced or address-taken anywhere else.
+// Loads of their elements at constant indices are constants for engine V.
+func (p *Prog) constGlobals() map[string]map[int64]int64 {
+	if p.constGlob != nil {
+		return p.constGlob
+	}
+	out := map[string]map[int64]int64{}
+	bad := map[string]bool{}
+	initFn := p.SSA.Func("init")
+	rootGlobal := func(v ssa.Value) *ssa.Global {
+		for i := 0; i < 4; i++ {
+			switch x := v.(type) {
+			case *ssa.IndexAddr:
+				v = x.X
+			case *ssa.FieldAddr:
+				v = x.X
+			case *ssa.Global:
+				return x
+			default:
+				return nil
+			}
+		}
+		return nil
+	}
+	scan := func(fn *ssa.Function, isInit bool) {
+		for _, b := range fn.Blocks {
+			for _, in := range b.Instrs {
+				switch x := in.(type) {
+				case *ssa.Store:
+					g := rootGlobal(x.Addr)
+					if g == nil || g.Pkg != p.SSA {
+						break
+					}
+					// whole-array initialisation from a literal built in a temporary
+					if ld, isL := x.Val.(*ssa.UnOp); isInit && isL && ld.Op == token.MUL && x.Addr == ssa.Value(g) {
+						if tmp, isA := ld.X.(*ssa.Alloc); isA {
+							tab := map[int64]int64{}
+							okT := true
+							for _, r := range *tmp.Referrers() {
+								switch u := r.(type) {
+								case *ssa.IndexAddr:
+									ic, okI := u.Index.(*ssa.Const)
+									for _, rr := range *u.Referrers() {
+										st2, isS := rr.(*ssa.Store)
+										if !isS || !okI || ic.Value == nil {
+											okT = false
+											continue
+										}
+										cv, isCV := st2.Val.(*ssa.Const)
+										if !isCV || cv.Value == nil || !intTypeInfo(cv.Type()).ok {
+											okT = false
+											continue
+										}
+										tab[ic.Int64()] = cv.Int64()
+									}
+								case *ssa.UnOp:
+								default:
+									okT = false
+								}
+							}
+							if okT && len(tab) > 0 {
+								out[g.Name()] = tab
+								break
+							}
+						}
+						bad[g.Name()] = true
+						break
+					}
+					cst, isC := x.Val.(*ssa.Const)
+					if !isInit || !isC || cst.Value == nil || !intTypeInfo(cst.Type()).ok {
+						bad[g.Name()] = true
+						break
+					}
+					idx := int64(0)
+					if ia, ok := x.Addr.(*ssa.IndexAddr); ok {
+						ic, ok := ia.Index.(*ssa.Const)
+						if !ok || ic.Value == nil || ia.X != ssa.Value(g) {
+							bad[g.Name()] = true
+							break
+						}
+						idx = ic.Int64()
+					} else if x.Addr != ssa.Value(g) {
+						bad[g.Name()] = true
+						break
+					}
+					if out[g.Name()] == nil {
+						out[g.Name()] = map[int64]int64{}
+					}
+					out[g.Name()][idx] = cst.Int64()
+				default:
+					// any other use of the global than an element address that is
+					// only loaded disqualifies it
+					var ops []*ssa.Value
+					for _, op := range in.Operands(ops) {
+						g, ok := (*op).(*ssa.Global)
+						if !ok || g.Pkg != p.SSA {
+							continue
+						}
+						switch u := in.(type) {
+						case *ssa.IndexAddr:
+							for _, r := range *u.Referrers() {
+								if ld, isL := r.(*ssa.UnOp); !isL || ld.Op != token.MUL {
+									if _, isS := r.(*ssa.Store); !isS || !isInit {
+										bad[g.Name()] = true
+									}
+								}
+							}
+						case *ssa.UnOp:
+							if u.Op != token.MUL {
+								bad[g.Name()] = true
+								break
+							}
+							// a copy of the table that is only indexed / measured
+							for _, r := range *u.Referrers() {
+								switch r.(type) {
+								case *ssa.Index, *ssa.DebugRef:
+								default:
+									if _, isArr := u.Type().Underlying().(*types.Array); isArr {
+										bad[g.Name()] = true
+									}
+								}
+							}
+						default:
+							bad[g.Name()] = true
+						}
+					}
+				}
+			}
+		}
+	}
+	if initFn != nil {
+		scan(initFn, true)
+	}
+	for _, fn := range p.AllFuncs {
+		scan(fn, false)
+	}
+	for n := range bad {
+		delete(out, n)
+	}
+	p.constGlob = out
+	return out
 }
 
 // existing filters a list of function names to those present (helpers the
